@@ -78,14 +78,18 @@ def task(R, item):
                     f = o.state.facts
                     branch += 1
                     tag = "%s|%s|branch%d" % (otag, nm, branch)
+                    for (aw_, kw, (w0, w1)) in ws:
+                        fw = aw_["state"].facts if aw_.get("state") is not None else o.state.facts
+                        w0s, w1s = fw.simplify(w0), fw.simplify(w1)
+                        lim = g.col_limit() if kw == "CASET" else g.row_limit()
+                        nmw = "columns" if kw == "CASET" else "pages"
+                        R.ob("C08c-start-le-end", "%s|%s" % (tag, nmw), fw.entails_ge0(w1s - w0s) is not None, "%s start %r may exceed end %r" % (nmw, w0s, w1s))
+                        R.ob("C08c-end-inside-framebuffer", "%s|%s" % (tag, nmw), fw.entails_ge0(lim - 1 - w1s) is not None,
+                             "%s end %r not provably inside the framebuffer" % (nmw, w1s))
+                    if len(ws) != 2 or any(w[0].get("state") is not None for w in ws):
+                        continue       # several windows / windows inside a loop: the count clause below is per single window
                     (a0, k0, (c0, c1)), (a1, k1, (p0, p1)) = ws[0], ws[1]
                     c0, c1, p0, p1 = [f.simplify(v) for v in (c0, c1, p0, p1)]
-                    R.ob("C08c-start-le-end", "%s|columns" % tag, f.entails_ge0(c1 - c0) is not None, "column start %r may exceed end %r" % (c0, c1))
-                    R.ob("C08c-start-le-end", "%s|pages" % tag, f.entails_ge0(p1 - p0) is not None, "page start %r may exceed end %r" % (p0, p1))
-                    R.ob("C08c-end-inside-framebuffer", "%s|columns" % tag, f.entails_ge0(g.col_limit() - 1 - c1) is not None,
-                         "column end %r not provably inside the framebuffer" % (c1,))
-                    R.ob("C08c-end-inside-framebuffer", "%s|pages" % tag, f.entails_ge0(g.row_limit() - 1 - p1) is not None,
-                         "page end %r not provably inside the framebuffer" % (p1,))
                     area = (c1 - c0 + 1) * (p1 - p0 + 1)
                     evs = [TR.classify(a_["ev"]) for a_ in TR.annotate(o.state.trace, res.loops)]
                     if nm == "fill_solid":
